@@ -357,8 +357,12 @@ def _r4_defs(ctx, pkg):
     ctx.saw(RENDER, "RenderCommand.handle")
     fl = Flow(h, RENDER)
     net = None
-    for nm, (attr, fld) in {"all_elements": ("elements", "name"), "all_species": ("species", "name"), "all_alias": ("species", "alias")}.items():
-        a = fl.assigns.get(nm, [])
+    # by role: the lists are what is stored under summary["list_of_..."]
+    stored = {f.index[1]: f for f in fl.facts if f.kind == "store" and f.index and f.index[0] == "const" and isinstance(f.index[1], str) and f.index[1].startswith("list_of_")}
+    for nm, (skey, attr, fld) in {"all_elements": ("list_of_elements", "elements", "name"), "all_species": ("list_of_species", "species", "name"),
+                                  "all_alias": ("list_of_species_alias", "species", "alias")}.items():
+        sf = stored.get(skey)
+        a = [(sf.value, None, None, sf.line)] if sf is not None else []
         ok = False
         found_s = ""
         if a:
@@ -370,7 +374,7 @@ def _r4_defs(ctx, pkg):
                 net = base[1]
         ctx.check(ok, "R4", f"render.py summary:{nm}", (RENDER, a[-1][3] if a else h.lineno), f"{nm} = [x.{fld} for x in net.{attr}] (same sequence, same order)", found=found_s)
     for f in fl.facts:
-        if f.kind == "store" and f.target == "summary" and f.index and f.index[0] == "const" and f.index[1] in ("num_of_elements", "num_of_species"):
+        if f.kind == "store" and f.index and f.index[0] == "const" and f.index[1] in ("num_of_elements", "num_of_species"):
             attr = "elements" if "elements" in f.index[1] else "species"
             v = simp(f.value)
             ok = v[0] == "call" and v[1] == ("global", "len") and v[2][0][0] == "attr" and v[2][0][2] == attr
@@ -739,7 +743,14 @@ def _r9(ctx, pkg):
               "artefacts rendered in different processes (macro header vs patch tables) disagree",
               expected="sorted(speclist, key=lambda x: (len(connection[x]), x))", found=found)
     # the unordered inputs are sorted before anything iterates them
-    a = fl.assigns.get("speclist", [])
+    # by role: the variable that is finally returned; its FIRST value must already be sorted
+    retname = None
+    for n in ast.walk(fn):
+        if isinstance(n, ast.Return) and n.value is not None:
+            for x in ast.walk(n.value):
+                if isinstance(x, ast.Name) and x.id in fl.assigns:
+                    retname = x.id
+    a = fl.assigns.get(retname, []) if retname else []
     first_ok = bool(a) and simp(a[0][0])[0] == "call" and simp(a[0][0])[1] == ("global", "sorted")
     ctx.check(first_ok, "R9", "Network.species:sorted input", (NETF, a[0][3] if a else fn.lineno), "the union of the reactant/product/required sets is sorted before use",
               found=show(simp(a[0][0]))[:100] if a else "")
